@@ -1,6 +1,7 @@
 import TapkeeVerif.Model.Util
 import TapkeeVerif.Model.Chain
 import TapkeeVerif.Model.Params
+import TapkeeVerif.Model.Callbacks
 /-! Line-protocol driver for property C13.
     in : `chain order=dfk`            attach, in this order, a callback created for role d, f, k; then embedRange
     out: `k=k d=d f=f`                which role's callback `tapkee::embed` receives in each slot (`-` = dummy),
@@ -38,10 +39,22 @@ def answerUses (m : String) : String :=
     let dec := declaredNeeds m
     s!"declared={letters dec} mentioned={letters men} undeclared={letters (men.filter fun c => !dec.contains c)}"
 
+/-- `cbcheck exact=1 pts=x,y;x,y;… k=… d=… f=… pk=… pd=…` : the library callbacks' values against the exact reference -/
+def answerCb (fs : List (String × String)) : String :=
+  let get := fun k => (field? fs k).getD ""
+  match allSome ((splitNonEmpty (get "pts") ";").map (parseRats ·)), parseRats (get "k"), parseRats (get "d"),
+        parseRats (get "f"), parseRats (get "pk"), parseRats (get "pd") with
+  | some pts, some ks, some ds, some ff, some pk, some pd =>
+    match Callbacks.judge pts ks ds ff pk pd (get "exact" == "1") with
+    | none => "cb-ok"
+    | some b => "cb-bad " ++ b
+  | _, _, _, _, _, _ => "cb-unparsable"
+
 def answer (line : String) : String :=
   let fs := fields line
   if line.startsWith "chain" then answerChain ((field? fs "order").getD "")
   else if line.startsWith "uses" then answerUses ((field? fs "method").getD "")
+  else if line.startsWith "cbcheck" then answerCb fs
   else "bad-case"
 
 def main : IO Unit := runLines answer
